@@ -55,6 +55,8 @@ class ItemSpec:
         self.pub_fields = False
         self.stub_body = False
         self.split_arms = []
+        self.split_all = False
+        self.require_any = []
         self.props = []
         self.line = line
         self.vspec = None
@@ -146,10 +148,14 @@ def parse_vspec(path):
                 # like @@rewrite, but <old> is a Python regular expression and <new> may refer to its
                 # groups (\\1 ...): for rewrites that replace an unsupported ADAPTER whatever its
                 # arguments are (the arguments stay the repository's text)
-                m = re.match(r'(\S+)\s+(\d+\??|\*)\s+"(.*)"\s+=>\s+"(.*)"\s*$', rest)
+                m = re.match(r'(\S+)\s+(\d+[?+]?|\*)\s+"(.*)"\s+=>\s+"(.*)"\s*$', rest)
                 if not m:
                     raise SystemExit("%s:%d: bad @@rewrite_re" % (path, ln))
                 wantre = m.group(2)
+                if wantre.endswith("+"):
+                    # "N+": at least N times - for a rewrite that replaces an unsupported ADAPTER the same
+                    # way wherever it occurs (splitting an or-pattern arm duplicates the call)
+                    wantre = str(10 ** 6 + int(wantre[:-1]))
                 if wantre == "*":
                     # any number of times, also none: only for R30 (a std adapter Verus has no model of ->
                     # an opaque stand-in about which nothing is known but a bound; the pinned tree has none)
@@ -197,6 +203,11 @@ def parse_vspec(path):
                 # dependencies): keep the signature, replace the body by unimplemented!()
                 cur_item.external_body = True
                 cur_item.stub_body = True
+            elif key == "require_any":
+                # at least one of the listed (optional) rewrite rules must have applied in this item
+                cur_item.require_any.append(rest.split())
+            elif key == "split_all_or_arms":
+                cur_item.split_all = True
             elif key == "split_or_arm":
                 cur_item.split_arms.append((_unquote(rest), ln))
             elif key == "props":
@@ -239,52 +250,32 @@ class Out:
             self.origin.append(("contract", file, ln, fn))
 
 
-def _split_guarded_or_arms(text):
+def _split_guarded_or_arms(text, require_guard=True):
     """R12b (automatic): Verus rejects a match arm that has BOTH an or-pattern and a guard
     (`A(x) | B(x) if g => body`).  Such an arm is split into one arm per alternative with the same
     guard and the same body tokens (`A(x) if g => body  B(x) if g => body`), which is what the
-    or-pattern means.  The copies are laid out on the arm's first line (comments dropped from the
-    copies) so that the line count - and with it the map back to /repo - is preserved.
+    or-pattern means.  With require_guard=False (directive @@split_all_or_arms, rule R12) every
+    or-pattern arm of the function is split (an or-pattern that binds by `&mut` is not supported
+    either).  The copies are laid out on the arm's first line (comments dropped from the copies) so
+    that the line count - and with it the map back to /repo - is preserved.
     Returns (new_text, number_of_arms_split)."""
-    mask = rsx.code_mask(text)
     n_split = 0
     out = text
-    # scan for ` if ` ... `=>` on code positions
     pos = 0
     while True:
-        m = re.search(r"\bif\b", out[pos:])
-        if not m:
-            break
-        i = pos + m.start()
-        pos = i + 2
         mask = rsx.code_mask(out)
-        if not mask[i]:
-            continue
-        # the guard must end in `=>` before any `{` / `;` at depth 0
-        j = i + 2
-        depth = 0
         arrow = -1
+        j = pos
         while j < len(out) - 1:
-            if mask[j]:
-                c = out[j]
-                if c in "([{":
-                    if c == "{" and depth == 0:
-                        break
-                    depth += 1
-                elif c in ")]}":
-                    depth -= 1
-                    if depth < 0:
-                        break
-                elif c == ";" and depth == 0:
-                    break
-                elif c == "=" and out[j + 1] == ">" and depth == 0:
-                    arrow = j
-                    break
+            if mask[j] and out[j] == "=" and out[j + 1] == ">":
+                arrow = j
+                break
             j += 1
         if arrow < 0:
-            continue
-        # pattern: back from `if` to the previous arm end (`,` or `{` or `}` at depth 0)
-        k = i - 1
+            break
+        pos = arrow + 2
+        # pattern (+ guard): back from `=>` to the previous arm end (`,` `{` `}` at depth 0)
+        k = arrow - 1
         depth = 0
         start = -1
         while k >= 0:
@@ -306,8 +297,26 @@ def _split_guarded_or_arms(text):
             k -= 1
         if start < 0:
             continue
-        pat = out[start:i]
-        # top-level alternatives
+        # top-level ` if ` separates pattern and guard
+        gi = -1
+        depth = 0
+        q = start
+        while q < arrow:
+            if mask[q]:
+                c = out[q]
+                if c in "([{":
+                    depth += 1
+                elif c in ")]}":
+                    depth -= 1
+                elif depth == 0 and out[q:q + 2] == "if" and (q == 0 or not (out[q - 1].isalnum() or out[q - 1] == "_")) \
+                        and (q + 2 >= len(out) or not (out[q + 2].isalnum() or out[q + 2] == "_")):
+                    gi = q
+                    break
+            q += 1
+        if gi < 0 and require_guard:
+            continue
+        pend = gi if gi >= 0 else arrow
+        pat = out[start:pend]
         alts, depth, cur = [], 0, ""
         for q, c in enumerate(pat):
             cm = mask[start + q]
@@ -321,10 +330,8 @@ def _split_guarded_or_arms(text):
             else:
                 cur += c
         alts.append(cur)
-        alts = [a for a in alts]
         if len(alts) < 2 or any(not a.strip() for a in alts):
             continue
-        guard = out[i:arrow]
         # body: from after `=>` to the end of the arm
         b0 = arrow + 2
         while b0 < len(out) and out[b0] in " \t":
@@ -332,7 +339,6 @@ def _split_guarded_or_arms(text):
         if b0 < len(out) and out[b0] == "{":
             e = rsx.match_delim(out, mask, b0)
             b1 = e + 1
-            # optional trailing comma
             t = b1
             while t < len(out) and out[t] in " \t":
                 t += 1
@@ -355,23 +361,23 @@ def _split_guarded_or_arms(text):
                         break
                 q += 1
             b1 = q
-        body = out[b0:b1]
-        # flattened, comment-free copy of guard + body for the extra arms
+
+        kinds = rsx.kind_mask(out)
+
         def flat(a, b):
-            return "".join((out[x] if mask[x] or out[x] in "\"'" else " ") if out[x] != "\n" else " " for x in range(a, b))
-        fguard = re.sub(r"\s+", " ", flat(i, arrow)).strip()
+            # comments dropped, string / char literals kept
+            return "".join((out[x] if kinds[x] != 0 else " ") if out[x] != "\n" else " " for x in range(a, b))
+        fguard = re.sub(r"\s+", " ", flat(gi, arrow)).strip() if gi >= 0 else ""
         fbody = re.sub(r"\s+", " ", flat(b0, b1)).strip()
-        if not fbody.endswith(",") and not fbody.endswith("}"):
-            fbody += ","
-        elif fbody.endswith("}"):
+        if not fbody.endswith(","):
             fbody += ","
         lead = re.match(r"\s*", alts[0]).group(0)
-        extra = " ".join("%s %s => %s" % (a.strip(), fguard, fbody) for a in alts[:-1])
+        extra = " ".join(("%s %s => %s" % (a.strip(), fguard, fbody)).replace("  ", " ") for a in alts[:-1])
         new_first = lead + extra + " " + alts[-1].strip() + " "
         nl_lost = pat.count("\n") - new_first.count("\n")
-        out = out[:start] + new_first + out[i:arrow] + out[arrow:b1] + ("\n" * max(nl_lost, 0)) + out[b1:]
+        out = out[:start] + new_first + out[pend:b1] + ("\n" * max(nl_lost, 0)) + out[b1:]
         n_split += 1
-        pos = start + len(new_first) + (arrow - i) + (b1 - arrow)
+        pos = start + len(new_first) + (b1 - pend)
     return out, n_split
 
 
@@ -626,7 +632,7 @@ def emit_item(spec, repo, out, stats, vspec_path, cache):
         n12b = 0
         for i, p in enumerate(pieces):
             if p[0] == "src":
-                t2, k2 = _split_guarded_or_arms(p[1])
+                t2, k2 = _split_guarded_or_arms(p[1], require_guard=not spec.split_all)
                 if k2:
                     pieces[i] = ("src", t2, p[2])
                     n12b += k2
@@ -634,6 +640,7 @@ def emit_item(spec, repo, out, stats, vspec_path, cache):
         if n12b:
             stats["rewrites"].setdefault("R12b", 0)
             stats["rewrites"]["R12b"] += n12b
+    item_counts = {}
     for rid, want, old, new, ln in spec.rewrites:
         total = 0
         for i, p in enumerate(pieces):
@@ -654,10 +661,17 @@ def emit_item(spec, repo, out, stats, vspec_path, cache):
                         raise SystemExit("%s:%d: rewrite must preserve line count" % (vspec_path, ln))
                     pieces[i] = ("src", p[1].replace(old, new), p[2])
         # (after R12b has duplicated an arm's body a rewrite inside it applies once per copy)
-        if total != want and not (want < 0 and total in (0, -want)) and want != 10 ** 9 and not (n12b_item and total > want > 0):
+        if want > 10 ** 6 and want < 10 ** 9:
+            if total < want - 10 ** 6:
+                raise Lost("%s: rewrite %s %r applied %d times, expected at least %d" % (fn, rid, old.pattern, total, want - 10 ** 6))
+        elif total != want and not (want < 0 and total in (0, -want)) and want != 10 ** 9 and not (n12b_item and total > want > 0):
             raise Lost("%s: rewrite %s %r applied %d times, expected %d" % (fn, rid, old if isinstance(old, str) else old.pattern, total, want))
         stats["rewrites"].setdefault(rid, 0)
         stats["rewrites"][rid] += total
+        item_counts[rid] = item_counts.get(rid, 0) + total
+    for group in spec.require_any:
+        if sum(item_counts.get(r, 0) for r in group) == 0:
+            raise Lost("%s: none of the rewrites %s applied" % (fn, " / ".join(group)))
     # R6 (automatic): derive lines are dropped from extracted datatypes unless the item
     # carries its own R6 rewrite
     if spec.kind in ("enum", "struct") and not any(r[0] == "R6" for r in spec.rewrites):
